@@ -502,9 +502,55 @@ def oracle_ipb(data, fi, hist):
             hist["ipb:struct-stops-early"] = hist.get("ipb:struct-stops-early", 0) + 1
             continue
         out.append(("%s '%s' vs %s '%s'" % (a, av, b, bv), cls11 if disp else None))
+    out.extend(oracle_v6lax(data, fi, hist))
     th = fi.get("TH", "---")
     if "0" in th:
         out.append(("to_header() of the slice family differs from the struct family's headers (TH=%s)" % th, None))
+    return out
+
+
+_LV6 = re.compile(r"^(ok 6 h=\S+ x=\d+) pl\(([01]),(\d+,[01],\w+,(\d+)\+(\d+))\) stop=(.*)$")
+
+
+def oracle_v6lax(data, fi, hist):
+    """round 3 (v6lax): the 13th copy Ipv6Slice::from_slice_lax against its siblings, on the implementation
+    (theorems C06_ipv6_slice_lax_eq_lax_ipv6, C06_ipv6_slice_lax_extends_strict):
+      * LaxIpv6Slice Err e                  -> Err e
+      * LaxIpv6Slice Ok, stop error (e, _)  -> Err e
+      * LaxIpv6Slice Ok, no stop error      -> Ok, the same header / extension window / payload record without the
+                                               incomplete flag
+      * Ipv6Slice Ok v                      -> Ok v (identical, len_source included); Ipv6Slice Err e -> Err e or e is the
+                                               Ipv6Packet length error the lax copy replaces by the slice-length fallback"""
+    out = []
+    x, l, st = fi.get("Ipv6SliceLax"), fi.get("LaxIpv6Slice"), fi.get("Ipv6Slice")
+    if x is None or l is None or st is None:
+        return [("Ipv6SliceLax / LaxIpv6Slice / Ipv6Slice answer missing", None)]
+    if l.startswith("err "):
+        want = l
+        hist["v6lax:hdr-err"] = hist.get("v6lax:hdr-err", 0) + 1
+    else:
+        m = _LV6.match(l)
+        if not m:
+            return [("LaxIpv6Slice answer not understood: '%s'" % l, None)]
+        if m.group(6) == "none":
+            want = "%s pl(%s)" % (m.group(1), m.group(3))
+            k = "v6lax:ok-fallback" if m.group(2) == "1" else "v6lax:ok"
+            hist[k] = hist.get(k, 0) + 1
+            if m.group(2) == "1" and (",slice," not in m.group(3) or int(m.group(4)) + int(m.group(5)) != len(data)):
+                out.append(("LaxIpv6Slice incomplete but payload '%s' does not end at the slice end" % l, None))
+        else:
+            sm = re.match(r"^\((.*)\)@\w+$", m.group(6))
+            want = "err " + (sm.group(1) if sm else "?")
+            hist["v6lax:ext-err"] = hist.get("v6lax:ext-err", 0) + 1
+    if x != want:
+        out.append(("Ipv6SliceLax '%s' but LaxIpv6Slice '%s' (expected '%s')" % (x, l, want), None))
+    if st.startswith("ok"):
+        if x != st:
+            out.append(("Ipv6Slice accepts with '%s' but Ipv6SliceLax '%s'" % (st, x), None))
+    elif x != st:
+        a = st[8:].split(",") if st.startswith("err len ") else []
+        if not (len(a) == 5 and a[2] == "slice" and a[3] == "Ipv6Packet" and a[4] == "0" and int(a[1]) == len(data)):
+            out.append(("Ipv6Slice '%s' but Ipv6SliceLax '%s': not the payload-length fallback" % (st, x), None))
     return out
 
 
